@@ -473,7 +473,7 @@ void OPN2::touchNote(size_t c,
     {
         bool do_op = alg_do[alg][op] || m_scaleModulators;
         uint32_t x = op_vol[op];
-        uint32_t vol_res = do_op ? (127 - (static_cast<uint32_t>(volume) * (127 - (x & 127))) / 127) : x;
+        uint32_t vol_res = do_op ? (127 - (static_cast<uint32_t>(volume) * (127 - (x & 127))) / 127) : (x & 127);
         if(brightness != 127)
         {
             brightness = static_cast<uint32_t>(::round(127.0 * ::sqrt((static_cast<double>(brightness)) * (1.0 / 127.0))));
